@@ -489,6 +489,7 @@ func runC01(o *Out) {
 	}
 	c01ModelCases(o)
 	c01TypedCases(o)
+	c01Omits(o)
 	startAll := time.Now()
 	skip := 0
 	for attempt := 0; attempt < 25; attempt++ {
